@@ -29,3 +29,7 @@ add("C01", "exploration", "exhaustive enumeration of a type x superblock x layou
     "Grid A: 18 element types x superblock {0,2,3} x 15 layouts (contiguous, single chunk, many chunks with partial edges, filtered) x 3 data patterns (index-coded, extremes incl. NaN payloads, >2^31, 2^53+1; alternating bytes) x 2 paths; grid B: {int32,float64,uint16} x every shape of rank<=3 (thorough 4) with extents from {1,2,3,5,7} x every chunk shape from {1,2,3,full} per dimension x 3 superblock versions; grid C: two compound types. After close and reopen: path, shape, element class/size/sign, and every typed read must equal the written values bit-exactly; a typed read that exists for the type in the simplest configuration must not fail in any other.",
     "Trusted: harness-side generation of expected float64 widening (same Go conversion). 'Typed read exists' is defined differentially from the simplest configuration of the same type.",
     "DESIGN.md §5 C01", "E4-grid-files")
+add("C13", "model_checking", "exhaustive enumeration of resize/write sequences up to a depth against an N-d array model",
+    "Per scenario (rank 1-2, thorough also 3; chunk shapes; fixed/unlimited/mixed maximum): every sequence up to depth 4 (rank 1) / 3 (rank 2) — thorough one deeper — over {Resize(d) for every d in a box that includes shapes beyond a fixed maximum, Write(pattern 1|2)} on the real DatasetWriter; after each sequence the reopened shape and Read are compared with a dense N-d array model (resize keeps the intersection and zero-fills, write replaces), accepted/rejected resize calls are compared with the declared maximum, and a neighbour dataset must be unchanged.",
+    "Trusted: the model of the statement. Bound: depth 3-5, extents <= 5, the API's only write (full extent).",
+    "DESIGN.md §5 C13", "E1-sequences")
